@@ -48,6 +48,8 @@ func runC01(c *Config, r *Report) {
 	}
 	c01R1(ic, r)
 	c01R2(ic, r)
+	c01R21(ic, r)
+	c01R22(ic, r)
 	c01R3(ic, r)
 	c01R4(ic, r)
 	// R01.5 shared with C02
@@ -583,8 +585,15 @@ func c01R3(ic *IC, r *Report) {
 		if fi == nil {
 			continue
 		}
-		okNew, okSet, okStore := false, false, false
-		for _, fl := range (&c02ctx{ic: ic}).closuresOf(fi) {
+		okNew, okSet, okStore := true, true, true
+		cls := (&c02ctx{ic: ic}).closuresOf(fi)
+		if len(cls) == 0 {
+			okNew, okSet, okStore = false, false, false
+		}
+		// every run-time closure of the generator: a variant chosen at generation time that reuses
+		// one location for all iterations (an "escape analysis" of the loop body) is the old semantics
+		for _, fl := range cls {
+			cNew, cSet, cStore := false, false, false
 			var nv types.Object
 			ast.Inspect(fl.Body, func(m ast.Node) bool {
 				as, ok := m.(*ast.AssignStmt)
@@ -594,7 +603,7 @@ func c01R3(ic *IC, r *Report) {
 				if call, ok := unparen(as.Rhs[0]).(*ast.CallExpr); ok && isCallTo(ic.Info, call, "reflect.Value.Elem") {
 					if se, ok := unparen(call.Fun).(*ast.SelectorExpr); ok {
 						if inner, ok := unparen(se.X).(*ast.CallExpr); ok && isCallTo(ic.Info, inner, "reflect.New") {
-							okNew = true
+							cNew = true
 							if id, ok := as.Lhs[0].(*ast.Ident); ok {
 								nv = ic.Info.ObjectOf(id)
 							}
@@ -609,7 +618,7 @@ func c01R3(ic *IC, r *Report) {
 					if isCallTo(ic.Info, x, "reflect.Value.Set") {
 						if se, ok := unparen(x.Fun).(*ast.SelectorExpr); ok {
 							if id, ok := unparen(se.X).(*ast.Ident); ok && ic.Info.ObjectOf(id) == nv && nv != nil {
-								okSet = true
+								cSet = true
 							}
 						}
 					}
@@ -619,7 +628,7 @@ func c01R3(ic *IC, r *Report) {
 							if v := selField(ic.Info, ix.X); v != nil && v.Name() == "data" {
 								if iv := selField(ic.Info, ix.Index); iv != nil && iv.Name() == "findex" {
 									if id, ok := unparen(x.Rhs[0]).(*ast.Ident); ok && ic.Info.ObjectOf(id) == nv && nv != nil {
-										okStore = true
+										cStore = true
 									}
 								}
 							}
@@ -628,9 +637,10 @@ func c01R3(ic *IC, r *Report) {
 				}
 				return true
 			})
+			okNew, okSet, okStore = okNew && cNew, okSet && cSet, okStore && cStore
 		}
 		r.Check(okNew && okSet && okStore, "R01.3", in.gen.Name()+"/fresh-copy", ic.pos(fi.Decl.Pos()), "allocates a new variable, copies the iteration value, installs it in the node's slot",
-			fmt.Sprintf("generator %s: allocates with reflect.New: %v, copies with Set: %v, stores the new Value into f.data[n.findex]: %v: the body of each iteration does not get its own copy of the loop variable", in.gen.Name(), okNew, okSet, okStore))
+			fmt.Sprintf("generator %s, in each of its run-time closures: allocates with reflect.New: %v, copies with Set: %v, stores the new Value into f.data[n.findex]: %v: the body of each iteration does not get its own copy of the loop variable (a variant selected at generation time counts: whether the copy is needed cannot be decided from the loop body - s := a[:] and pointer-receiver calls take the address too)", in.gen.Name(), okNew, okSet, okStore))
 	}
 }
 
